@@ -254,6 +254,30 @@ impl<C> Encode<C> for Annotated {
     }
 }
 
+/// A CBOR *sequence*: the numbers one after the other without any enclosing item.  Its `Decode` impl reads until the end of
+/// the input it is given, so it notices every byte of the window it is handed -- a stale tail behind the frame changes it.
+#[derive(Debug, Clone, PartialEq)]
+pub struct CborSeq(pub Vec<u64>);
+
+impl<C> Encode<C> for CborSeq {
+    fn encode<W: Write>(&self, e: &mut Encoder<W>, _: &mut C) -> Result<(), encode::Error<W::Error>> {
+        for x in &self.0 {
+            e.u64(*x)?;
+        }
+        Ok(())
+    }
+}
+
+impl<'b, C> Decode<'b, C> for CborSeq {
+    fn decode(d: &mut minicbor::Decoder<'b>, _: &mut C) -> Result<Self, minicbor::decode::Error> {
+        let mut v = Vec::new();
+        while d.position() < d.input().len() {
+            v.push(d.u64()?);
+        }
+        Ok(CborSeq(v))
+    }
+}
+
 /// A value whose `Encode` impl writes `partial` bytes and then fails with a message error.
 #[derive(Debug, Clone, PartialEq)]
 pub struct FailEncode {
@@ -290,7 +314,7 @@ tys!(
     VecVecU8, BTreeMapU32Str, Duration, IpAddr, SocketAddr, IntTy, TaggedU32, Tokens, Point, MapRec, Gappy, Color,
     Shape, Wrapper, Borrowed, Tree, TaggedRec, EncOps, BoxStr, CowStr, RangeU32, BoundI16, Wrapping, CString, Path, Empty,
     ArrIterExact, ArrIterFilter, MapIterExact, MapIterFilter, BTreeSetU16, VecDequeStr, LinkedListU8, BinaryHeapI32, HashMapFixed,
-    HashSetFixed, SystemTime, CellU16, RefCellStr, NonZeroU32, AtomicI64, TagTy, SocketAddrV6, RangeInclusiveI8, Phantom, Slice, SelfDesc, Embedded, Nothing, Ticket, Nested, Annotated,
+    HashSetFixed, SystemTime, CellU16, RefCellStr, NonZeroU32, AtomicI64, TagTy, SocketAddrV6, RangeInclusiveI8, Phantom, Slice, SelfDesc, Embedded, Nothing, Ticket, Nested, Annotated, CborSeq, FailAfter,
 );
 
 #[derive(Clone, Debug, PartialEq, Eq)]
@@ -854,6 +878,8 @@ pub fn with_value<V: EncVisitor>(spec: &ValSpec, vis: V) -> V::Out {
         // a value whose Encode impl writes nothing at all (zero-length encoding)
         Ty::Empty => vis.visit(&EncOps(Vec::new())),
         Ty::Nothing => vis.visit(&Nothing),
+        Ty::CborSeq => vis.visit(&CborSeq((0..n.min(200)).map(|_| boundary_u64(r)).collect())),
+        Ty::FailAfter => vis.visit(&FailEncode { partial: n.min(40) }),
         Ty::Nested => vis.visit(&Nested(gen_string(r, n))),
         Ty::Annotated => vis.visit(&Annotated(boundary_u64(r) as u32, gen_string(r, n))),
         Ty::Ticket => {
@@ -908,12 +934,13 @@ family!(FShape, Shape, Shape);
 family!(FUnit, Unit, ());
 family!(FSelfDesc, SelfDesc, Tagged<55799, &'a str>);
 family!(FNothing, Nothing, Nothing);
+family!(FCborSeq, CborSeq, CborSeq);
 family!(FEmbedded, Embedded, Tagged<24, &'a ByteSlice>);
 
 /// Types that have a decode family; the I/O workloads draw from these.
 pub const IO_TYS: &[Ty] = &[
     Ty::U64, Ty::Str, Ty::String, Ty::Bytes, Ty::ByteSliceRef, Ty::Tuple3, Ty::Borrowed, Ty::Tree, Ty::VecU32, Ty::OptStr,
-    Ty::MapRec, Ty::Gappy, Ty::Shape, Ty::Unit, Ty::SelfDesc, Ty::Embedded, Ty::Nothing,
+    Ty::MapRec, Ty::Gappy, Ty::Shape, Ty::Unit, Ty::SelfDesc, Ty::Embedded, Ty::Nothing, Ty::CborSeq,
 ];
 
 pub trait FamVisitor {
@@ -939,6 +966,7 @@ pub fn with_family<V: FamVisitor>(ty: Ty, vis: V) -> V::Out {
         Ty::Unit => vis.visit::<FUnit>(),
         Ty::SelfDesc => vis.visit::<FSelfDesc>(),
         Ty::Nothing => vis.visit::<FNothing>(),
+        Ty::CborSeq => vis.visit::<FCborSeq>(),
         Ty::Embedded => vis.visit::<FEmbedded>(),
         other => panic!("harness: type {} has no decode family", other.name()),
     }
